@@ -144,6 +144,17 @@ class Repo:
                 for t in st.targets:
                     if isinstance(t, ast.Name):
                         m.assigns.setdefault(t.id, []).append(st.value)
+                    elif isinstance(t, (ast.Tuple, ast.List)) and all(isinstance(x, ast.Name) for x in t.elts):
+                        # a, b = x, y   /   a, b = value
+                        for i, x in enumerate(t.elts):
+                            if isinstance(st.value, (ast.Tuple, ast.List)) and len(st.value.elts) == len(t.elts) and \
+                                    not any(isinstance(v, ast.Starred) for v in st.value.elts):
+                                m.assigns.setdefault(x.id, []).append(st.value.elts[i])
+                            else:
+                                sub = ast.Subscript(value=st.value, slice=ast.Constant(value=i), ctx=ast.Load())
+                                ast.copy_location(sub, st.value)
+                                ast.fix_missing_locations(sub)
+                                m.assigns.setdefault(x.id, []).append(sub)
             elif isinstance(st, ast.AnnAssign) and isinstance(st.target, ast.Name) and st.value is not None:
                 m.assigns.setdefault(st.target.id, []).append(st.value)
             elif isinstance(st, (ast.FunctionDef, ast.AsyncFunctionDef)):
@@ -344,6 +355,68 @@ class Repo:
                 raise NotConst(f"{ex}" + (f"; by evaluation: {ex2}" if str(ex2) else ""))
 
     _folding: set = set()
+    _modvals: Dict[str, Any] = {}
+
+    def module_values(self, m: Module) -> Optional[Dict[str, Any]]:
+        """The module's global constants after its top-level statements ran in order (so `TABLE.update(...)`,
+        `TABLE[k] = v`, tuple assignments, helper calls and comprehensions are accounted for). Only names whose final
+        value is fully concrete and was reached without any choice are present; None while being computed."""
+        if m.name in self._modvals:
+            return self._modvals[m.name]
+        self._modvals[m.name] = None  # in progress: lookups fall back to the syntactic definitions
+        from .interp import Interp, KindEnv, PathAbort, _Raise
+        from .report import AnalysisError
+        from .values import FuncV, RefV
+        schema = getattr(self, "_schema_for_fold", None)
+        if schema is None:
+            schema = Schema(self)
+            self._schema_for_fold = schema
+        it = Interp(self, schema, KindEnv(schema))
+        it._reset([])
+        it.stack = [("<module>", m)]
+        env: Dict[str, Any] = {}
+        poisoned: set = set()
+
+        def stored(st) -> set:
+            out = set()
+            for n in ast.walk(st):
+                if isinstance(n, ast.Name) and isinstance(n.ctx, (ast.Store, ast.Del)):
+                    out.add(n.id)
+                elif isinstance(n, ast.Name) and isinstance(n.ctx, ast.Load):
+                    out.add(n.id)  # receivers of mutating calls / subscript stores
+            return out
+
+        for st in m.tree.body:
+            if isinstance(st, ast.ClassDef):
+                env[st.name] = RefV(f"{m.name}.{st.name}")
+                continue
+            if isinstance(st, (ast.FunctionDef, ast.AsyncFunctionDef)):
+                env[st.name] = FuncV(m, st)
+                continue
+            if isinstance(st, (ast.Import, ast.ImportFrom)):
+                continue
+            if isinstance(st, ast.Expr) and isinstance(st.value, ast.Constant):
+                continue
+            before = len(it.trace)
+            try:
+                it.exec_stmt(st, env, m)
+                ok = len(it.trace) == before
+            except (AnalysisError, _Raise, PathAbort, RecursionError, Exception):
+                ok = False
+            if not ok:
+                touched = stored(st) & (set(m.assigns) | set(env))
+                poisoned |= touched
+                it.trace = it.trace[:before]
+        out: Dict[str, Any] = {}
+        for k, v in env.items():
+            if k in poisoned or k not in m.assigns:
+                continue
+            try:
+                out[k] = _to_py(v)
+            except NotConst:
+                pass
+        self._modvals[m.name] = out
+        return out
 
     def _fold_interp(self, m: Module, e: ast.expr) -> Any:
         key = (m.name, ast.dump(e))
@@ -443,6 +516,9 @@ class Repo:
             if e.id in ("True", "False", "None"):
                 return {"True": True, "False": False, "None": None}[e.id]
             if e.id in m.assigns:
+                mv = self.module_values(m)
+                if mv is not None and e.id in mv:
+                    return mv[e.id]
                 vals = m.assigns[e.id]
                 if len(vals) != 1:
                     raise NotConst(f"{e.id} assigned {len(vals)} times")
